@@ -21,6 +21,8 @@ HEADER = 'f1,f2,label'
 
 
 def good_row(i):
+    if i % 3 == 0:
+        return f'"r{i},x",{i % 3},{i % 2}'     # a quoted field with an embedded delimiter is still one field
     return f'r{i},{i % 3},{i % 2}'
 
 
@@ -141,6 +143,61 @@ def _tail(job):
     return st
 
 
+def _gz(_):
+    """the streaming loop on gzip-compressed input (the path the ob-vw source takes): same rows, same batches"""
+    import gzip
+    import os
+    from mc import harness
+    from mc.common import scratch_dir, rm_scratch
+    from outrank import core_ranking as cr
+    from outrank.core_utils import BatchRankingSummary
+    st = Stats()
+    d = scratch_dir('c08gz')
+    try:
+        for k in range(1, 6):
+            for kinds in itertools.product('gb', repeat=k):
+                text = render(kinds, 'few')
+                for mb, sub in ((1, 1), (2, 1), (1, 2), (2, 3)):
+                    path = os.path.join(d, 'data.csv.gz')
+                    with gzip.open(path, 'wt', encoding='utf-8') as f:
+                        f.write(text)
+                    rec = []
+
+                    def recorder(line_tmp_storage, *a, **kw):
+                        rec.append([list(r) for r in line_tmp_storage])
+                        return BatchRankingSummary([], {}), {}, {}, {}
+
+                    log = harness.RecLogger()
+                    args = harness.make_args(data_source='csv-raw', minibatch_size=mb, subsampling=sub, heuristic='MI-numba-randomized')
+                    orig = cr.compute_batch_ranking
+                    cr.compute_batch_ranking = recorder
+                    try:
+                        with harness.in_dir(d):
+                            harness.reset_state()
+                            ok, r = safe(cr.estimate_importances_minibatches, path, HEADER.split(','), None, set(), args=args, data_encoding='utf-8', cpu_pool=harness.InlinePool(), delimiter=',', logger=log)
+                    finally:
+                        cr.compute_batch_ranking = orig
+                    st.count('evaluations')
+                    st.count('gz_runs')
+                    st.count('traces_validated')
+                    st.count('transitions', k)
+                    case = {'kind': 'gz', 'lines': ''.join(kinds), 'minibatch_size': mb, 'subsampling': sub}
+                    if not ok:
+                        st.violation(case, f'streaming loop raised {r} on gz input', {'kind': 'exception', 'family': 'gz'})
+                        continue
+                    header, ref_b, ref_inv = pipeline.reference_batches(text, mb, sub)
+                    inv = 0
+                    for m_ in log.msgs:
+                        if m_.startswith('Detected '):
+                            inv = int(m_.split()[1])
+                    if rec != ref_b or inv != ref_inv:
+                        st.violation(case, f'gz input: batches {rec} (invalid {inv}), reference {ref_b} (invalid {ref_inv})', {'kind': 'batches', 'family': 'gz'})
+    finally:
+        rm_scratch(d)
+    st.count('states', 1)
+    return st
+
+
 def _edge(_):
     st = Stats()
     for text in (HEADER + '\n', HEADER, HEADER + '\n\n', HEADER + '\n' + good_row(1) + '\n'):
@@ -177,6 +234,8 @@ def _dispatch(item):
     k, job = item
     if k == 'seqdiff':
         return _seqdiff(job)
+    if k == 'gz':
+        return _gz(job)
     return {'small': _small, 'tail': _tail, 'edge': _edge}[k](job)
 
 
@@ -189,6 +248,7 @@ def run(ctx):
     jobs += [('tail', tc[i::64]) for i in range(64) if tc[i::64]]
     jobs.append(('edge', None))
     jobs.append(('seqdiff', None))
+    jobs.append(('gz', None))
     for st in pmap(_dispatch, jobs):
         ctx.stats.merge(st)
     ctx.extra['k_max'] = kmax
@@ -200,6 +260,8 @@ def run(ctx):
 def eval_case(case):
     if case['kind'] == 'seqdiff':
         return seqdiff.replay(seq_call, SEQ_FILES, case['seq'])
+    if case['kind'] == 'gz':
+        return [v['what'] for v in _gz(None).violations if v['case']['lines'] == case['lines']]
     if case['kind'] == 'small':
         text = render(tuple(case['lines']), case['bad_style'])
         fails, _ = pipeline.judge_streaming(text, dict(minibatch_size=case['minibatch_size'], subsampling=case['subsampling']))
